@@ -61,6 +61,15 @@ func runHist(c *caseT) string {
 				rec = cfgRecs[op.CfgRef-1]
 			} else if !op.NoCfg {
 				cfg := makeConfig(op.Filters, op.Aggs, op.Acc, rec)
+				if op.AllFail {
+					// what a Config looks like after `mutate`: the same names, every function replaced by one that fails
+					for _, name := range op.Filters {
+						cfg.SetFilterFunction(name, filterFunc("fail", nil))
+					}
+					for _, name := range op.Aggs {
+						cfg.SetAggregateFunction(name, aggFunc("afail", nil))
+					}
+				}
 				cfgp = &cfg
 			}
 			cfgs[k] = cfgp
@@ -196,6 +205,9 @@ func runConc(c *caseT) string {
 	var fns []shared
 	var docs []interface{}
 	var parseOps []opT
+	// the Config each path was parsed with is kept: the goroutines below hand the SAME Config (value copies of one
+	// object, sharing its function tables) to concurrent Parse calls — a Config is only read by Parse
+	var sharedCfgs []jsonpath.Config
 	for _, op := range c.Ops {
 		switch op.Op {
 		case "parse":
@@ -203,6 +215,7 @@ func runConc(c *caseT) string {
 			f, obs, _ := parseObs(unhex(op.Path), &cfg)
 			fns = append(fns, shared{f, obs})
 			parseOps = append(parseOps, op)
+			sharedCfgs = append(sharedCfgs, cfg)
 		case "doc":
 			docs = append(docs, buildDoc(op.Doc))
 		}
@@ -244,6 +257,10 @@ func runConc(c *caseT) string {
 						// interleave Parse calls of the same and of other paths
 						op := parseOps[(i+r)%len(parseOps)]
 						cfg := makeConfig(op.Filters, op.Aggs, op.Acc, nil)
+						if (k+r)%2 == 0 {
+							// every goroutine passes the Config object made before the goroutines started
+							cfg = sharedCfgs[(i+r)%len(parseOps)]
+						}
 						_, obs, _ := parseObs(unhex(op.Path), &cfg)
 						if obs != fns[(i+r)%len(parseOps)].obs {
 							mu.Lock()
